@@ -138,42 +138,33 @@ def run(ctx):
     T.POSITIVE.update({'Wn'})
     rW, IW = ctx.run(cdb, heap={'num_bits': lift(8), 'input_file_stem': NONE}, args={'digitize': TRUE, 'requantize': TRUE},
                      no_inline=NI, expand=False, max_depth=0)
-    ns = [e for e in IW.events if e.kind == 'store' and e.data.get('name') == 'num_samples']
-    ctx.require(len(ns) == 2, 'collect_data_block: the two num_samples assignments (first request / later requests) not found')
+    req = [e for e in IW.events if e.kind == 'call' and e.data.get('name') == '.get_samples' and e.loops
+           and 'antenna_source' in ast.unparse(e.data['recv_node'])]
+    ctx.require(len(req) == 1, 'collect_data_block: the per-sub-block request to the antenna source was not found')
+    nsamp = req[0].data['args'][1]
+    so = T.mk_attr(T.mk_attr(sym('self'), 'antenna_source'), 'start_obs')
 
     def with_W(t):
-        def fn(a):
-            if a.kind in ('loopvar', 'ite') and ('W' in str(a.args[0]) if a.kind == 'loopvar' else False):
-                return sym('Wn')
-            return None
-        t2 = T.subst(t, fn)
-        # any remaining conditional choice of W is replaced as a whole
-        for a in T.all_atoms(t2).values():
-            if a.kind == 'ite' and 'Wn' in pretty(Term.of(a)):
+        """name the (loop-carried, possibly shortened) window count W as one integer symbol"""
+        cands = [a for a in T.all_atoms(t).values() if a.kind == 'loopvar' and T.LOOPVAR_LABELS.get((a.args[0], a.args[1]), a.args[0]) == 'W']
+        t2 = t
+        # the conditional choice between the regular and the shortened last window count is replaced as a whole
+        for a in sorted(T.all_atoms(t).values(), key=lambda x: -len(x.key)):
+            if a.kind == 'ite' and any(c.key in T.all_atoms(Term.of(a)) for c in cands):
                 t2 = T.subst(t2, lambda x, a=a: sym('Wn') if x.key == a.key else None)
-        return t2
+        return T.subst(t2, lambda x: sym('Wn') if (x.kind == 'loopvar' and T.LOOPVAR_LABELS.get((x.args[0], x.args[1]), x.args[0]) == 'W') else None)
     TB = ctx.spec(cdb, 'self.num_taps * self.num_branches', I=ctx.interp(expand=False))
     Tt = ctx.spec(cdb, 'self.num_taps', I=ctx.interp(expand=False))
-    first = [e for e in ns if any(pretty(c).endswith('start_obs') and 'not' not in pretty(c) for c in e.pc)]
-    later = [e for e in ns if e not in first]
-    ctx.require(len(first) == 1 and len(later) == 1, 'collect_data_block: cannot tell the first-request arm from the later one')
-    n1, n2 = with_W(first[0].data['value']), with_W(later[0].data['value'])
+    n1 = with_W(T.assume(nsamp, {so.key: True}))
+    n2 = with_W(T.assume(nsamp, {so.key: False}))
     spectra = lambda length: (T.mk_call('floor', [length / TB]) - 1) * Tt        # rows produced by the PFB front end (C08-D2)
     want_rows = Tt * (sym('Wn') - 1)
     ctx.formula('AGREE', 'first request of an observation: W windows in, (W-1)*num_taps spectra out (one warm-up window)', cdb,
-                spectra(n1), want_rows, node=first[0].node, construct=first[0].text() + ' [spectra]')
+                spectra(n1), want_rows, node=req[0].node, construct='antenna_source.get_samples(...) [first request]')
     ctx.formula('AGREE', 'later requests: (W-1) windows plus the cached window give (W-1)*num_taps spectra', cdb,
-                spectra(n2 + TB), want_rows, node=later[0].node, construct=later[0].text() + ' [spectra]')
+                spectra(n2 + TB), want_rows, node=req[0].node, construct='antenna_source.get_samples(...) [later requests]')
     ctx.formula('AGREE', 'the first request exceeds the later ones by exactly num_taps*num_branches samples', cdb, n1 - n2, TB,
-                node=first[0].node, construct='warm-up surplus')
-    tr = [e for e in IW.events if e.kind == 'store' and e.data.get('name') == 'subblock_t_range']
-    ctx.require(tr, 'collect_data_block: subblock_t_range not found')
-    bps = ctx.spec(cdb, 'self.bytes_per_sample', I=ctx.interp(expand=False))
-    for e in tr:
-        v = with_W(e.data['value'])
-        if 'Wn' in pretty(v):
-            ctx.formula('AGREE', 'bytes written per (channel, sub-block) == spectra * bytes_per_sample (last partial sub-block)', cdb, v,
-                        want_rows * bps, node=e.node)
+                node=req[0].node, construct='warm-up surplus')
     w = [e for e in IW.events if e.kind == 'store' and e.data.get('target') == 'attr' and e.data.get('name') == 'num_subblocks']
     ctx.ob('WHOWRITES', 'num_subblocks is re-derived once per block from the window arithmetic', cdb, len(w) == 1 and not w[0].loops,
            {'stores': [e.text() for e in w]}, node=(w[0].node if w else cdb.node), construct='self.num_subblocks')
